@@ -44,13 +44,16 @@ ASSUMPTIONS = [
     'rank_adjustment, max_utilization optional)',
     'a reservation is judged in the partition and with the traits the system '
     'reports when it is listed (null partition reads back as _default)',
-    'a request that raises is not accepted: InvalidInputError is judged as a '
-    'capacity decision (a fitting request must not be refused); an '
-    'exception for a partition or reservation that does not exist is only '
-    'counted (rejected:<Type>.<context>) and must leave the store '
-    'unchanged; any other exception while partition and reservation exist '
-    'is c19.service-failure.<Type>; the refusal of a null-partition request '
-    'is not judged',
+    'a request that raises must raise an input / lookup error: '
+    'exc.InvalidInputError (judged as a capacity decision: a fitting '
+    'request must not be refused), exc.NotFoundError or admin '
+    'NoSuchObjectResult (update of a missing reservation), admin '
+    'AlreadyExistsResult (create over an existing one), a schema '
+    'ValidationError (update without partition only); any other exception '
+    'is c19.service-failure.<Type>. A partition that does not exist has '
+    'zero capacity and no limits: only a zero demand fits, and it is then '
+    'listed in that partition. The refusal of a null-partition request is '
+    'not judged (see execute)',
     'trait lists hold no duplicates (LDAP attribute values are sets); '
     'partitions are not reconfigured inside a case',
     'an update never sends an empty trait list for a reservation that '
@@ -219,35 +222,24 @@ def execute(case, stats):
                         '%s %r' % (err.message, rsrc))
                 outcome = 'invalid'
             except Exception as err:  # pylint: disable=broad-except
+                # Anything else (TypeError, AttributeError, KeyError,
+                # ValueError, a generic backend error ...) is a failure of the
+                # service, whether or not the partition / reservation named
+                # by the request exists.
                 name = type(err).__name__
-                # A request that ends in an exception is not accepted.  Where
-                # the thing it names does not exist there is no capacity
-                # decision to judge: count it, and (below) require that it
-                # wrote nothing.
-                looked_up = rsrc.get('partition', rsvlib.DEFAULT_PARTITION)
-                if is_update and old is not None:
-                    looked_up = rsrc.get('partition', old['partition'])
-                if is_update and old is None:
-                    context = 'update-of-missing'
-                elif (cell, looked_up) not in model.partitions:
-                    context = 'partition-missing'
-                else:
-                    context = None
-                if context is None:
-                    # partition and reservation exist: the statement asks for
-                    # accept or an input error, not a failure of the service
-                    raise Violation(
-                        'c19.service-failure.%s' % name,
-                        '%s: request %r (fits=%s, shares limited trait %s '
-                        'with another reservation) raised %s(%s) instead of '
-                        'being accepted or rejected with InvalidInputError'
-                        % (where, rsrc, not misfits, shares, name, err))
-                outcome = 'failed'
-                stats.count('rejected:%s.%s' % (name, context))
+                raise Violation(
+                    'c19.service-failure.%s' % name,
+                    '%s: request %r (fits=%s, partition %s, shares limited '
+                    'trait %s with another reservation) raised %s(%s) instead '
+                    'of being accepted or refused with an input / not-found '
+                    'error'
+                    % (where, rsrc, not misfits,
+                       'exists' if (cell, eff_part) in model.partitions
+                       else 'does not exist', shares, name, err))
             stats.count('outcome:' + outcome)
 
-            if outcome in ('invalid', 'failed'):
-                pass                      # not accepted: nothing may change
+            if outcome == 'invalid':
+                pass                      # refused as input error, no change
             elif not is_update and old is not None:
                 # create over an existing id: never a new promise
                 if outcome not in ('rejected', 'exists'):
@@ -286,10 +278,14 @@ def execute(case, stats):
                     stats.count('null_partition_accepted')
             elif outcome == 'rejected':
                 if null_part:
-                    # Which partition a null names before anything is stored
-                    # is not defined (the tree treats it as one that does not
-                    # exist, i.e. zero capacity): only the accepted direction
-                    # is asserted for these requests.
+                    # A null partition is looked up as a partition that does
+                    # not exist (zero capacity), so any demand is rightly
+                    # refused.  A zero demand may be refused too: the list of
+                    # "other reservations" is not filtered for a null, so the
+                    # whole cell counts against that zero capacity - which
+                    # partition a null names before anything is stored is not
+                    # defined, so that refusal is not judged.  Accepted null
+                    # requests are judged where they are then listed.
                     stats.count('null_partition_rejected')
                 elif not misfits:
                     raise Violation(
@@ -403,6 +399,42 @@ def fixed_cases():
                     {'op': 'create', 'id': 't2/uat/c1', 'aim': 'over',
                      'rsrc': {'cpu': '0%', 'memory': '1K', 'disk': '0K',
                               'partition': 'p1', 'traits': ['a']}}],
+        }),
+        # fixed by 5dc7ae3: a partition that does not exist has zero
+        # capacity (TypeError before); a zero demand fits and is then listed
+        # there, and counts
+        ('partition-does-not-exist', {
+            'partitions': [_p('p1', '200%', '100G', '100G')],
+            'existing': [],
+            'ops': [{'op': 'create', 'id': 't1/dev/c1', 'aim': 'zero',
+                     'rsrc': {'cpu': '0%', 'memory': '0K', 'disk': '0K',
+                              'partition': 'ghost'}},
+                    {'op': 'create', 'id': 't2/dev/c1', 'aim': 'over',
+                     'rsrc': {'cpu': '1%', 'memory': '0K', 'disk': '0K',
+                              'partition': 'ghost', 'traits': ['a']}},
+                    {'op': 'update', 'id': 't1/dev/c1', 'aim': 'over',
+                     'rsrc': {'cpu': '0%', 'memory': '0K', 'disk': '1K',
+                              'partition': 'ghost'}},
+                    {'op': 'create', 'id': 't2/uat/c1', 'aim': 'over',
+                     'rsrc': {'cpu': '10%', 'memory': '1G', 'disk': '1G',
+                              'partition': None}},
+                    {'op': 'update', 'id': 't1/dev/c1', 'aim': 'under',
+                     'rsrc': {'cpu': '10%', 'memory': '1G', 'disk': '1G',
+                              'partition': 'p1'}}],
+        }),
+        # fixed by 5dc7ae3: update of a reservation that does not exist is
+        # "not found" (AttributeError before), fitting or not
+        ('update-of-missing-reservation', {
+            'partitions': [_p('_default', '100%', '10G', '10G')],
+            'existing': [],
+            'ops': [{'op': 'update', 'id': 't1/dev/c1', 'aim': 'zero',
+                     'rsrc': {'cpu': '0%', 'memory': '0K', 'disk': '0K',
+                              'partition': '_default'}},
+                    {'op': 'update', 'id': 't1/dev/c1', 'aim': 'over',
+                     'rsrc': {'cpu': '101%', 'memory': '1G', 'disk': '1G',
+                              'partition': '_default'}},
+                    {'op': 'update', 'id': 't1/dev/c1', 'aim': 'under',
+                     'rsrc': {'cpu': '1%', 'memory': '1G', 'disk': '1G'}}],
         }),
         # an update that re-sends the stored amounts and only adds a limited
         # trait is still checked against that trait's limit
